@@ -464,4 +464,105 @@ theorem ainv_crun (aw : Bool) (lk : Lock) (s : CSt) (sched : List Ev) (h : AInv 
   | nil => exact h
   | cons e es ih => exact ih _ (ainv_stepEv aw lk s e h)
 
+/-! ## Part 5: compare-and-assign in one critical section (`Lock.cas`, the code as it is)
+
+What this shape does guarantee: two successive assignments never carry the same file version
+(the pure "both triggers saw the old hash" double apply is gone).  What it does not: a stale
+snapshot can still be assigned after a newer one (`Props/C27.lean` has the witnesses). -/
+
+/-- no two adjacent equal entries -/
+def NoAdjDup : List Nat → Prop
+  | a :: b :: l => a ≠ b ∧ NoAdjDup (b :: l)
+  | _ => True
+
+instance : (l : List Nat) → Decidable (NoAdjDup l)
+  | [] => isTrue trivial
+  | [_] => isTrue trivial
+  | a :: b :: l =>
+    have := instDecidableNoAdjDup (b :: l)
+    by unfold NoAdjDup; exact inferInstance
+
+theorem noAdjDup_cons (a : Nat) (l : List Nat) (h : NoAdjDup l) (hd : ∀ v, l.head? = some v → a ≠ v) :
+    NoAdjDup (a :: l) := by
+  cases l with
+  | nil => trivial
+  | cons b l => exact ⟨hd b rfl, h⟩
+
+structure CInv (s : CSt) : Prop where
+  noasg : ∀ t, (s.thr t).pc ≠ .asg
+  m_le : s.apv ≤ s.ver
+  m_eq : s.apv = s.ver → s.applied = s.file
+  k_le : ∀ t, (s.thr t).pc ≠ .idle → (s.thr t).pc ≠ .read → (s.thr t).sv ≤ s.ver
+  k_eq : ∀ t, (s.thr t).pc ≠ .idle → (s.thr t).pc ≠ .read → (s.thr t).sv = s.ver → (s.thr t).snap = s.file
+  c1 : ∀ t u, (s.thr t).pc ≠ .idle → (s.thr t).pc ≠ .read → (s.thr u).pc ≠ .idle → (s.thr u).pc ≠ .read →
+    (s.thr t).sv = (s.thr u).sv → (s.thr t).snap = (s.thr u).snap
+  c2 : ∀ t, (s.thr t).pc ≠ .idle → (s.thr t).pc ≠ .read → (s.thr t).sv = s.apv → (s.thr t).snap = s.applied
+  hd : ∀ v, s.apvers.head? = some v → v = s.apv
+  nad : NoAdjDup s.apvers
+
+theorem cinv_init (n L : Nat) (f : Key) : CInv (cinit n L f) := by
+  constructor <;> simp [cinit, NoAdjDup]
+
+theorem cinv_stepThr (aw : Bool) (s : CSt) (t : Nat) (h : CInv s) : CInv (stepThr aw .cas s t) := by
+  unfold stepThr
+  by_cases hn : s.n ≤ t
+  · simp [hn]; exact h
+  simp only [hn, if_false]
+  obtain ⟨a1, a2, a3, a4, a5, a6, a7, a8, a9⟩ := h
+  cases hpc : (s.thr t).pc with
+  | idle =>
+    simp only [show (Lock.cas = Lock.serial) = False by simp, if_false]
+    constructor
+    all_goals (try simp only [setThr_thr, setThr_file, setThr_applied, setThr_ver, setThr_apv, setThr_apvers, finish_thr, finish_file, finish_applied, finish_ver, finish_apv, finish_apvers, doAssign_thr, doAssign_file, doAssign_ver, doAssign_applied, doAssign_apv, doAssign_apvers, afterAssign_thr, afterAssign_file, afterAssign_applied, afterAssign_ver, afterAssign_apv, afterAssign_apvers, doAssign_L, ↓reduceIte])
+    all_goals grind
+  | read =>
+    simp only
+    split
+    · constructor
+      all_goals (try simp only [setThr_thr, setThr_file, setThr_applied, setThr_ver, setThr_apv, setThr_apvers, finish_thr, finish_file, finish_applied, finish_ver, finish_apv, finish_apvers, doAssign_thr, doAssign_file, doAssign_ver, doAssign_applied, doAssign_apv, doAssign_apvers, afterAssign_thr, afterAssign_file, afterAssign_applied, afterAssign_ver, afterAssign_apv, afterAssign_apvers, doAssign_L, ↓reduceIte])
+      all_goals grind
+    · constructor
+      all_goals (try simp only [setThr_thr, setThr_file, setThr_applied, setThr_ver, setThr_apv, setThr_apvers, finish_thr, finish_file, finish_applied, finish_ver, finish_apv, finish_apvers, doAssign_thr, doAssign_file, doAssign_ver, doAssign_applied, doAssign_apv, doAssign_apvers, afterAssign_thr, afterAssign_file, afterAssign_applied, afterAssign_ver, afterAssign_apv, afterAssign_apvers, doAssign_L, ↓reduceIte])
+      all_goals grind
+  | cmp =>
+    simp only [if_true]
+    split
+    · constructor
+      all_goals (try simp only [setThr_thr, setThr_file, setThr_applied, setThr_ver, setThr_apv, setThr_apvers, finish_thr, finish_file, finish_applied, finish_ver, finish_apv, finish_apvers, doAssign_thr, doAssign_file, doAssign_ver, doAssign_applied, doAssign_apv, doAssign_apvers, afterAssign_thr, afterAssign_file, afterAssign_applied, afterAssign_ver, afterAssign_apv, afterAssign_apvers, doAssign_L, ↓reduceIte])
+      all_goals grind
+    · rename_i hne
+      have hsv : (s.thr t).sv ≠ s.apv := fun he => hne (a7 t (by simp [hpc]) (by simp [hpc]) he)
+      have hnad : NoAdjDup ((s.thr t).sv :: s.apvers) :=
+        noAdjDup_cons _ _ a9 (fun v hv => by rw [a8 v hv]; exact hsv)
+      constructor
+      all_goals (try simp only [setThr_thr, setThr_file, setThr_applied, setThr_ver, setThr_apv, setThr_apvers, finish_thr, finish_file, finish_applied, finish_ver, finish_apv, finish_apvers, doAssign_thr, doAssign_file, doAssign_ver, doAssign_applied, doAssign_apv, doAssign_apvers, afterAssign_thr, afterAssign_file, afterAssign_applied, afterAssign_ver, afterAssign_apv, afterAssign_apvers, doAssign_L, ↓reduceIte])
+      all_goals grind
+  | asg => exact absurd hpc (a1 t)
+  | ntf j =>
+    simp only
+    split
+    · constructor
+      all_goals (try simp only [setThr_thr, setThr_file, setThr_applied, setThr_ver, setThr_apv, setThr_apvers, finish_thr, finish_file, finish_applied, finish_ver, finish_apv, finish_apvers, doAssign_thr, doAssign_file, doAssign_ver, doAssign_applied, doAssign_apv, doAssign_apvers, afterAssign_thr, afterAssign_file, afterAssign_applied, afterAssign_ver, afterAssign_apv, afterAssign_apvers, doAssign_L, ↓reduceIte])
+      all_goals grind
+    · constructor
+      all_goals (try simp only [setThr_thr, setThr_file, setThr_applied, setThr_ver, setThr_apv, setThr_apvers, finish_thr, finish_file, finish_applied, finish_ver, finish_apv, finish_apvers, doAssign_thr, doAssign_file, doAssign_ver, doAssign_applied, doAssign_apv, doAssign_apvers, afterAssign_thr, afterAssign_file, afterAssign_applied, afterAssign_ver, afterAssign_apv, afterAssign_apvers, doAssign_L, ↓reduceIte])
+      all_goals grind
+  | done => exact ⟨a1, a2, a3, a4, a5, a6, a7, a8, a9⟩
+
+theorem cinv_stepEv (aw : Bool) (s : CSt) (e : Ev) (h : CInv s) : CInv (stepEv aw .cas s e) := by
+  cases e with
+  | step t => exact cinv_stepThr aw s t h
+  | wc c =>
+    obtain ⟨a1, a2, a3, a4, a5, a6, a7, a8, a9⟩ := h
+    constructor <;> simp only [stepEv] <;> grind
+  | wr c =>
+    obtain ⟨a1, a2, a3, a4, a5, a6, a7, a8, a9⟩ := h
+    constructor <;> simp only [stepEv] <;> grind
+
+theorem cinv_crun (aw : Bool) (s : CSt) (sched : List Ev) (h : CInv s) : CInv (crun aw .cas s sched) := by
+  unfold crun
+  induction sched generalizing s with
+  | nil => exact h
+  | cons e es ih => exact ih _ (cinv_stepEv aw s e h)
+
 end Refinery.Lemmas.Reload
